@@ -309,6 +309,16 @@ func runC13(r *mc.Report, e *Env) {
 
 func replayC13(r *mc.Report, e *Env, rawCase json.RawMessage) {
 	var sq c13SeqCase
+	if json.Unmarshal(rawCase, &sq) == nil && sq.Part == "held-key" {
+		gkey, gcontent := sq.First.wire()
+		id := sha256.Sum256(gkey)
+		st := state.NewStateStorage(storage.NewMockStorage(), nil)
+		fmt.Println("put genuine:", st.Put(gkey, id[:], gcontent))
+		mkey, mcontent := sq.Second.wire()
+		fmt.Println("put forged under the held key:", st.Put(mkey, id[:], mcontent))
+		fmt.Println("put forged on an empty store:", state.NewStateStorage(storage.NewMockStorage(), nil).Put(mkey, id[:], mcontent))
+		return
+	}
 	if json.Unmarshal(rawCase, &sq) == nil && sq.Part == "carried-validator" {
 		or := &c13MutOracle{}
 		v := state.NewStateValidator(or)
